@@ -129,17 +129,21 @@ pub fn value(n: usize, d: u8) -> i64 { value_at(n, lvl_of(n), d) }
 pub fn qvalue(n: usize) -> i64 { qvalue_at(n, lvl_of(n)) }
 pub fn norm(x: i64) -> i64 { if x > INF as i64 { INF as i64 } else if x < NEG_INF as i64 { NEG_INF as i64 } else { x } }
 
-/// The C05 oracle applied to a completed search result at the root.
+/// The C05 oracle applied to a completed search result at the root.  The children's values are computed once each
+/// (every horizon value is a run of the engine's own quiescence on a fresh searcher - the dominant cost).
 pub fn check_result(score: i32, mv: Option<Move>, depth: u8) {
-    let want = value_at(0, 0, depth);
     if has_moves_at(0, 0) {
+        let mut vals = [i64::MIN; 3];
+        macro_rules! kid { ($j:expr) => { if $j < br() && ($j as u8) < g().nmoves[0] { vals[$j] = -value_at(child(0, $j), 1, depth - 1); } }; }
+        kid!(0); kid!(1); kid!(2);
+        let mut want = vals[0]; if vals[1] > want { want = vals[1]; } if vals[2] > want { want = vals[2]; }
         vassert!(norm(score as i64) == norm(want), "C05: reported score differs from the minimax value of the depth-limited tree");
         vassert!(mv.is_some(), "C05: no move returned although the root has legal moves");
         if let Some(m) = mv {
             let legal = m.to < g().nmoves[0] && (m.to as usize) < br() && m == mk_move(0, m.to as usize);
             vassert!(legal, "C05: returned move is not one of the root's moves");
             if legal {
-                let cv = if m.to == 0 { -value_at(1, 1, depth - 1) } else if m.to == 1 { -value_at(2, 1, depth - 1) } else { -value_at(3, 1, depth - 1) };
+                let cv = if m.to == 0 { vals[0] } else if m.to == 1 { vals[1] } else { vals[2] };
                 vassert!(norm(cv) == norm(want), "C05: returned move does not attain the minimax value");
             }
         }
